@@ -8,3 +8,10 @@ from contracts.C19_check_options import PostprocessField, RunCheck  # which cell
 from contracts.C03_polars_container_validate import PolarsContainerValidate
 
 CONTRACTS = [ArrayCollect, ArrayCollectPrefix, RunSchemaComponentChecks, ContainerValidate, ArrayValidate, PolarsContainerValidate, PostprocessField, RunCheck, ArrayRunChecks, ColumnRunChecks, ContainerRunChecks, PolarsColumnRunChecks, PolarsContainerRunChecks]
+
+# the polars report pairs the i-th failure case with the i-th false entry of the row mask: its producers hand over failure cases in
+# row order, one per masked-out row (their own contracts)
+from contracts.C08_polars_column_checks import PolarsCheckNullable, PolarsCheckUnique
+from contracts.C01_joint_uniqueness import PolarsJointUniqueness
+
+CONTRACTS = list(CONTRACTS) + [PolarsCheckNullable, PolarsCheckUnique, PolarsJointUniqueness]
